@@ -1601,6 +1601,9 @@ class ExtendedToOriginalDecorator:
 
     def startTestRun(self):
         self._tags = TagContext()
+        # A new run starts unstopped, as it does on results with a
+        # shouldStop of their own.
+        self._shouldStop = False
         try:
             return self.decorated.startTestRun()
         except AttributeError:
